@@ -74,13 +74,8 @@ Proof. vm_compute. reflexivity. Qed.
 
 (* the hypotheses of doc_rt hold on the example *)
 Lemma ex_hyps :
-  max_id_ok ex_doc /\ dict_get (d_trailer ex_doc) K_Encrypt = None /\ has_objstm (d_objects ex_doc) = false /\
-  Forall (fun io => lengths_ok (match try_from_version concrete ex_doc ex_v4 [] with Ok st => st | _ =>
-            {| es_version := 0; es_revision := 0; es_key_length := None; es_encrypt_metadata := true;
-               es_crypt_filters := []; es_key := []; es_stmf := []; es_strf := []; es_O := []; es_OE := [];
-               es_U := []; es_UE := []; es_perms := 0; es_perms_enc := [] |} end) (snd io)) (d_objects ex_doc).
+  max_id_ok ex_doc /\ dict_get (d_trailer ex_doc) K_Encrypt = None /\ has_objstm (d_objects ex_doc) = false.
 Proof.
-  split; [|split; [reflexivity|split; [reflexivity|]]].
-  - intros id H. cbn in H. destruct H as [<-|[<-|[<-|[<-|[]]]]]; cbn; lia.
-  - repeat constructor.
+  split; [|split; reflexivity].
+  intros id H. cbn in H. destruct H as [<-|[<-|[<-|[<-|[]]]]]; cbn; lia.
 Qed.
